@@ -631,3 +631,74 @@ def anchor_drift(vlib, chk):
                 '(the theorems speak about the reviewed text; the correspondence run below decides)' % ', '.join(changed))
         chk.notes.append('transcribed functions changed since review: ' + ', '.join(changed))
     return changed
+
+
+# ---------------------------------------------------------------- several by-value aggregates in one prototype (round 3)
+AGG_MENU = ['blk1:8', 'blk1:16', 'blk1:12', 'blk2:8', 'blk2:16', 'blk2:4', 'blk3:16', 'blk4:16', 'blk3:12', 'blk4:12', 'blk:24', 'blk:40']
+
+
+def agg_regs(t):
+    """(integer registers, vector registers) an aggregate of MIR block type t needs when passed in registers"""
+    k, s = t.split(':')
+    n = (int(s) + 7) // 8
+    return {'blk': (0, 0), 'blk1': (n, 0), 'blk2': (0, n), 'blk3': (1, 1), 'blk4': (1, 1)}[k]
+
+
+def aggregate_core():
+    """aimed at the fit test of aggregate arguments: scalars fill a register class up to k short of its end, an
+    aggregate that does not fit any more follows (it goes to memory and must NOT consume registers), then aggregates
+    and scalars that still fit into what is really left, then ones that do not"""
+    out = []
+    mk = lambda a, res=('i64',), nf=None: out.append(dict(args=list(a), nfixed=len(a) if nf is None else nf, vararg=nf is not None,
+                                                          res=list(res), style='agg-core'))
+    for k in (4, 5, 6):   # integer class
+        mk(['i64'] * k + ['blk1:16', 'blk1:8', 'i64', 'blk1:8', 'i64'])
+        mk(['i32'] * k + ['blk3:16', 'blk1:8', 'blk2:8', 'blk1:16', 'd'], res=['d'])
+        mk(['p'] * k + ['blk1:16', 'blk1:16', 'blk1:8', 'blk1:8', 'blk1:8'], res=[])
+    for k in (6, 7, 8):   # vector class
+        mk(['d'] * k + ['blk2:16', 'blk2:8', 'd', 'blk2:4', 'f'], res=['d'])
+        mk(['f'] * k + ['blk4:16', 'blk2:8', 'blk1:8', 'blk2:16', 'i64'])
+        mk(['d'] * k + ['blk2:16', 'blk2:16', 'blk2:8', 'blk2:8'], res=[])
+    # nothing consumed by a memory-class aggregate: four two-double aggregates still fill xmm0..7
+    mk(['i64'] * 6 + ['blk3:16'] + ['blk2:16'] * 4 + ['blk2:8'], res=['d', 'd'])
+    mk(['d'] * 8 + ['blk4:16'] + ['blk1:16'] * 3 + ['blk1:8'], res=['i64', 'i64'])
+    mk(['blk:24', 'blk1:16', 'blk:40', 'blk1:16', 'blk1:16', 'blk1:16', 'blk1:8'])
+    mk(['blk1:16', 'blk1:16', 'blk1:16', 'blk1:16', 'blk1:8', 'blk2:16', 'blk3:16', 'blk4:12', 'blk2:8'])
+    mk(['i64', 'i64', 'i64', 'i64', 'i64', 'blk3:16', 'blk4:16', 'blk1:8', 'd', 'd', 'd', 'd', 'd', 'd', 'd', 'blk3:12', 'blk2:8'], res=['d'])
+    # the same boundary in a variadic tail
+    mk(['p', 'i64', 'i64', 'i64', 'i64', 'blk1:16', 'blk1:8', 'i64'], nf=1)
+    mk(['p'] + ['d'] * 7 + ['blk2:16', 'blk2:8', 'd'], nf=1, res=[])
+    mk(['i64', 'i64', 'i64', 'i64', 'i64', 'blk1:16', 'blk1:8', 'blk1:8'], nf=6)
+    # long doubles consume no register
+    mk(['ld', 'i64', 'i64', 'i64', 'i64', 'i64', 'ld', 'blk1:16', 'ld', 'blk1:8', 'blk1:8'], res=['ld'])
+    return out
+
+
+def gen_aggregate_proto(rng):
+    """pre-scalars filling the register classes up to the boundary, 2..5 aggregates of all classes, scalars in between"""
+    ni = rng.choice([0, 3, 4, 5, 6, 7])
+    nd = rng.choice([0, 0, 5, 6, 7, 8, 9])
+    pre = [rng.choice(['i64', 'i32', 'p', 'u8']) for _ in range(ni)] + [rng.choice(['d', 'd', 'f']) for _ in range(nd)]
+    rng.shuffle(pre)
+    if rng.random() < 0.25:
+        pre.insert(rng.randrange(len(pre) + 1), 'ld')
+    args = list(pre)
+    for _ in range(rng.choice([2, 2, 3, 3, 4, 5])):
+        args.append(rng.choice(AGG_MENU))
+        if rng.random() < 0.35:
+            args.append(rng.choice(['i64', 'd', 'i16', 'f']))
+    if rng.random() < 0.3:  # aggregates first, scalars after them
+        k = len(pre)
+        args = args[k:] + args[:k]
+    while sum(slot_size(a) for a in args) > 600:
+        args.pop()
+    vararg = rng.random() < 0.2 and len(args) >= 2
+    nfixed = len(args)
+    if vararg:
+        nfixed = rng.randint(1, len(args) - 1)
+        args = args[:nfixed] + [a if is_blk(a) or a in ('i64', 'd', 'ld') else ('d' if a == 'f' else 'i64') for a in args[nfixed:]]
+        if is_blk(args[nfixed - 1]):   # va_start needs a named scalar last (keeps the generated C simple)
+            args.insert(nfixed, 'i64')
+            nfixed += 1
+    res = rng.choice([[], ['i64'], ['d'], ['i32'], ['i64', 'd'], ['d', 'd'], ['i64', 'i64'], ['ld'], ['f']])
+    return dict(args=args, nfixed=nfixed, vararg=vararg, res=res, style='agg')
